@@ -52,6 +52,9 @@ RECURSIVE Cast(_,_,_)
 Cast(r, i, occ) == IF i > Len(r) THEN {} ELSE IF r[i] \in occ THEN {r[i]} ELSE {r[i]} \cup Cast(r, i + 1, occ)
 RayAttack(s, occ, dirs) == UNION { Cast(Ray[s][d], 1, occ) : d \in dirs }
 
+RECURSIVE SortedSq(_)
+SortedSq(S) == IF S = {} THEN <<>> ELSE LET m == CHOOSE x \in S : \A y \in S : x <= y IN <<m>> \o SortedSq(S \ {m})
+
 \* sanity of the definitions themselves
 ASSUME \A a \in Sq, b \in Sq : Between(a, b) \subseteq Line(a, b) /\ Between(a, b) = Between(b, a) /\ Line(a, b) = Line(b, a)
 ASSUME \A s \in Sq : RookRays(s) \cap BishopRays(s) = {} /\ s \notin RookRays(s) /\ Cardinality(RookRays(s)) = 14
